@@ -15,10 +15,17 @@ Proof.
   apply andb_true_iff in H as [H1 H2]. apply stmt_eqb_eq in H1. apply IH in H2. congruence.
 Qed.
 
+Lemma stmt_eqb_refl a : stmt_eqb a a = true.
+Proof. destruct a; cbn [stmt_eqb]; try reflexivity; apply N.eqb_refl. Qed.
+
+Lemma stmts_eqb_refl a : stmts_eqb a a = true.
+Proof. induction a as [|x a IH]; [reflexivity|]. cbn [stmts_eqb]. rewrite stmt_eqb_refl, IH. reflexivity. Qed.
+
 Lemma toy_ok_of ind : analysis_ok (toyA_of ind).
 Proof.
   constructor.
   - exact stmts_eqb_eq.
+  - exact stmts_eqb_refl.
   - intros a b Ha Hb. cbn in a, b, Ha, Hb. destruct a; [|discriminate]. destruct b; [reflexivity|discriminate].
   - intros t i Hi. cbn [first toyA_of] in Hi. unfold toy_first in Hi. rewrite !in_app_iff in Hi. destruct Hi as [Hi|[Hi|Hi]].
     + apply in_map_iff in Hi as [e [<- He]]. unfold toy_syn in He. apply in_flat_map in He as [p [_ Hp]].
